@@ -151,210 +151,224 @@ func firstIfCond(fd *ast.FuncDecl, fn string) ast.Expr {
 }
 
 func validationFacts(b *strings.Builder) {
-	// ---- name length limits
-	limit := func(name string) int64 {
-		be, ok := constExpr(validationFile, name).(*ast.BinaryExpr)
-		if !ok || be.Op != token.SUB || selPath(be.X) != "apimachineryvalidation.DNS1035LabelMaxLength" {
-			failf("%s is not `apimachineryvalidation.DNS1035LabelMaxLength - N`", name)
+	var jcNameLimit, jobNameLimit int64
+	var ops, attempts, maxConc, specImm, tmplImm, delegates, derefs [][2]string
+	maxLenOp, startGuardObj, killGuard := "", "", ""
+	hashID := "?"
+	recheck, recheckGuard, recheckHash, schedGuard := false, "", "", ""
+
+	section("val-limits", func() {
+		// ---- name length limits
+		limit := func(name string) int64 {
+			be, ok := constExpr(validationFile, name).(*ast.BinaryExpr)
+			if !ok || be.Op != token.SUB || selPath(be.X) != "apimachineryvalidation.DNS1035LabelMaxLength" {
+				failf("%s is not `apimachineryvalidation.DNS1035LabelMaxLength - N`", name)
+				return 0
+			}
+			return dns1035LabelMaxLength - intLit(be.Y, name)
+		}
+		limits := map[string]int64{"maxJobConfigNameLen": limit("maxJobConfigNameLen"), "maxJobNameLen": limit("maxJobNameLen")}
+		usedLimit := func(fn, arg0 string) int64 {
+			fd := funcDecl(validationFile, "Validator", fn)
+			for _, c := range callsIn(fd, "validation.ValidateMaxLength") {
+				if len(c.Args) == 3 && render(c.Args[0]) == arg0 {
+					if v, ok := limits[exprName(c.Args[1])]; ok {
+						return v
+					}
+				}
+			}
+			failf("%s: no validation.ValidateMaxLength(%s, <limit const>, …) call found", fn, arg0)
 			return 0
 		}
-		return dns1035LabelMaxLength - intLit(be.Y, name)
-	}
-	limits := map[string]int64{"maxJobConfigNameLen": limit("maxJobConfigNameLen"), "maxJobNameLen": limit("maxJobNameLen")}
-	usedLimit := func(fn, arg0 string) int64 {
-		fd := funcDecl(validationFile, "Validator", fn)
-		for _, c := range callsIn(fd, "validation.ValidateMaxLength") {
-			if len(c.Args) == 3 && render(c.Args[0]) == arg0 {
-				if v, ok := limits[exprName(c.Args[1])]; ok {
-					return v
-				}
+		jcNameLimit = usedLimit("ValidateJobConfig", "rjc.Name")
+		jobNameLimit = usedLimit("ValidateJobMetadata", "metadata.Name")
+
+		// ---- generic bound validators: operator of the rejecting comparison
+		for _, fn := range []string{"GTE", "GT", "LTE", "LT"} {
+			fd := funcDecl(genericValFile, "", "Validate"+fn)
+			be, ok := firstIfCond(fd, "Validate"+fn).(*ast.BinaryExpr)
+			if !ok || exprName(be.X) != "value" || (exprName(be.Y) != "minimum" && exprName(be.Y) != "maximum") {
+				failf("Validate%s: condition is not `value <op> minimum|maximum`", fn)
+				continue
 			}
+			ops = append(ops, [2]string{fn, be.Op.String()})
 		}
-		failf("%s: no validation.ValidateMaxLength(%s, <limit const>, …) call found", fn, arg0)
-		return 0
-	}
-	jcNameLimit := usedLimit("ValidateJobConfig", "rjc.Name")
-	jobNameLimit := usedLimit("ValidateJobMetadata", "metadata.Name")
-
-	// ---- generic bound validators: operator of the rejecting comparison
-	var ops [][2]string
-	for _, fn := range []string{"GTE", "GT", "LTE", "LT"} {
-		fd := funcDecl(genericValFile, "", "Validate"+fn)
-		be, ok := firstIfCond(fd, "Validate"+fn).(*ast.BinaryExpr)
-		if !ok || exprName(be.X) != "value" || (exprName(be.Y) != "minimum" && exprName(be.Y) != "maximum") {
-			failf("Validate%s: condition is not `value <op> minimum|maximum`", fn)
-			continue
-		}
-		ops = append(ops, [2]string{fn, be.Op.String()})
-	}
-	maxLenOp := ""
-	if be, ok := firstIfCond(funcDecl(genericValFile, "", "ValidateMaxLength"), "ValidateMaxLength").(*ast.BinaryExpr); ok &&
-		render(be.X) == "len(val)" && exprName(be.Y) == "maxLen" {
-		maxLenOp = be.Op.String()
-	} else {
-		failf("ValidateMaxLength: condition is not `len(val) <op> maxLen`")
-	}
-
-	// ---- numeric bounds
-	attempts := boundCalls(funcDecl(validationFile, "Validator", "ValidateMaxRetryAttempts"), "ValidateMaxRetryAttempts", "attempts")
-	maxConc := boundCalls(funcDecl(validationFile, "Validator", "ValidateConcurrencySpec"), "ValidateConcurrencySpec", "*spec.MaxConcurrency")
-
-	// ---- immutability
-	specUpd := funcDecl(validationFile, "Validator", "ValidateJobSpecUpdate")
-	specImm := immutableCalls(specUpd, "ValidateJobSpecUpdate", "spec", "oldSpec")
-	tmplImm := immutableCalls(funcDecl(validationFile, "Validator", "ValidateJobTemplateSpecImmutable"),
-		"ValidateJobTemplateSpecImmutable", "template", "oldTemplate")
-	var delegates [][2]string
-	for _, want := range [][3]string{
-		{"v.ValidateJobTemplateSpecImmutable", "oldSpec.Template", "spec.Template"},
-		{"v.ValidateKillTimestampUpdate", "oldSpec.KillTimestamp", "spec.KillTimestamp"},
-	} {
-		cs := callsIn(specUpd, want[0])
-		if len(cs) != 1 || len(cs[0].Args) != 3 || render(cs[0].Args[0]) != want[1] || render(cs[0].Args[1]) != want[2] {
-			failf("ValidateJobSpecUpdate: call %s(%s, %s, fldPath.Child(…)) not found", want[0], want[1], want[2])
-			continue
-		}
-		delegates = append(delegates, [2]string{strings.TrimPrefix(want[0], "v."), childName(cs[0].Args[2], "ValidateJobSpecUpdate")})
-	}
-	// metadata: the uid label
-	labelConst := ""
-	if cs := callsIn(funcDecl(validationFile, "Validator", "ValidateJobMetadataUpdate"), "apivalidation.ValidateImmutableField"); len(cs) == 1 && len(cs[0].Args) == 3 {
-		a, b2 := render(cs[0].Args[0]), render(cs[0].Args[1])
-		const pfxNew, pfxOld = "metadata.Labels[", "oldMetadata.Labels["
-		if strings.HasPrefix(a, pfxNew) && strings.HasPrefix(b2, pfxOld) && strings.TrimPrefix(a, pfxNew) == strings.TrimPrefix(b2, pfxOld) {
-			labelConst = strings.TrimSuffix(strings.TrimPrefix(a, pfxNew), "]")
+		if be, ok := firstIfCond(funcDecl(genericValFile, "", "ValidateMaxLength"), "ValidateMaxLength").(*ast.BinaryExpr); ok &&
+			render(be.X) == "len(val)" && exprName(be.Y) == "maxLen" {
+			maxLenOp = be.Op.String()
 		} else {
-			failf("ValidateJobMetadataUpdate: ValidateImmutableField is not on (metadata.Labels[K], oldMetadata.Labels[K]): %s", render(cs[0]))
+			failf("ValidateMaxLength: condition is not `len(val) <op> maxLen`")
 		}
-	} else {
-		failf("ValidateJobMetadataUpdate: expected exactly one ValidateImmutableField call")
-	}
-	if labelConst != "jobconfig.LabelKeyJobConfigUID" {
-		failf("ValidateJobMetadataUpdate: immutable label is %q, expected jobconfig.LabelKeyJobConfigUID", labelConst)
-	}
-	// ValidateJobUpdate: callers and the startPolicy guard
-	jobUpd := funcDecl(validationFile, "Validator", "ValidateJobUpdate")
-	for _, want := range []string{"v.ValidateJobMetadataUpdate", "v.ValidateJobSpecUpdate"} {
-		if len(callsIn(jobUpd, want)) != 1 {
-			failf("ValidateJobUpdate: call to %s not found", want)
-		}
-	}
-	startGuard, startGuardObj := "", ""
-	if jobUpd != nil {
-		ast.Inspect(jobUpd, func(n ast.Node) bool {
-			is, ok := n.(*ast.IfStmt)
-			if !ok {
-				return true
-			}
-			inner := callsIn(&ast.FuncDecl{Body: is.Body, Name: jobUpd.Name, Type: jobUpd.Type}, "validation.ValidateImmutableField")
-			if len(inner) == 1 && len(inner[0].Args) == 4 &&
-				render(inner[0].Args[0]) == "rj.Spec.StartPolicy" && render(inner[0].Args[1]) == "oldRj.Spec.StartPolicy" {
-				startGuard = render(is.Cond)
-			}
-			return true
-		})
-	}
-	switch startGuard {
-	case "!rj.Status.StartTime.IsZero()":
-		startGuardObj = "new"
-	case "!oldRj.Status.StartTime.IsZero()":
-		startGuardObj = "old"
-	case "":
-		failf("ValidateJobUpdate: guarded ValidateImmutableField(rj.Spec.StartPolicy, oldRj.Spec.StartPolicy, …) not found")
-	default:
-		failf("ValidateJobUpdate: startPolicy guard not recognised: %s", startGuard)
-	}
-	killGuard := ""
-	if c := firstIfCond(funcDecl(validationFile, "Validator", "ValidateKillTimestampUpdate"), "ValidateKillTimestampUpdate"); c != nil {
-		killGuard = render(c)
-	}
 
-	// ---- cron: validator's hash id, scheduler's guard, parser defaults
-	hashID := "?"
-	if cs := callsIn(funcDecl(validationFile, "Validator", "ValidateCronScheduleExpression"), "parser.Parse"); len(cs) == 1 && len(cs[0].Args) == 2 {
-		hashID = strLit(cs[0].Args[1], "ValidateCronScheduleExpression hash id")
-	} else {
-		failf("ValidateCronScheduleExpression: parser.Parse(cronSchedule, \"…\") not found")
-	}
-	// the scheduler-style re-parse inside ValidateJobConfig (absent before fix d9dad79: recorded, not an error)
-	recheck, recheckGuard, recheckHash := false, "", ""
-	if fd := funcDecl(validationFile, "Validator", "ValidateJobConfig"); fd != nil {
-		ast.Inspect(fd, func(n ast.Node) bool {
-			is, ok := n.(*ast.IfStmt)
-			if !ok {
-				return true
+	})
+
+	section("val-bounds", func() {
+		// ---- numeric bounds
+		attempts = boundCalls(funcDecl(validationFile, "Validator", "ValidateMaxRetryAttempts"), "ValidateMaxRetryAttempts", "attempts")
+		maxConc = boundCalls(funcDecl(validationFile, "Validator", "ValidateConcurrencySpec"), "ValidateConcurrencySpec", "*spec.MaxConcurrency")
+
+	})
+
+	section("val-immutable", func() {
+		// ---- immutability
+		specUpd := funcDecl(validationFile, "Validator", "ValidateJobSpecUpdate")
+		specImm = immutableCalls(specUpd, "ValidateJobSpecUpdate", "spec", "oldSpec")
+		tmplImm = immutableCalls(funcDecl(validationFile, "Validator", "ValidateJobTemplateSpecImmutable"),
+			"ValidateJobTemplateSpecImmutable", "template", "oldTemplate")
+		for _, want := range [][3]string{
+			{"v.ValidateJobTemplateSpecImmutable", "oldSpec.Template", "spec.Template"},
+			{"v.ValidateKillTimestampUpdate", "oldSpec.KillTimestamp", "spec.KillTimestamp"},
+		} {
+			cs := callsIn(specUpd, want[0])
+			if len(cs) != 1 || len(cs[0].Args) != 3 || render(cs[0].Args[0]) != want[1] || render(cs[0].Args[1]) != want[2] {
+				failf("ValidateJobSpecUpdate: call %s(%s, %s, fldPath.Child(…)) not found", want[0], want[1], want[2])
+				continue
 			}
-			inner := callsIn(&ast.FuncDecl{Body: is.Body, Name: fd.Name, Type: fd.Type}, "v.validateCronScheduleForJobConfig")
-			if len(inner) == 1 {
-				if render(is.Cond) != "len(allErrs) == 0" || len(inner[0].Args) != 2 || render(inner[0].Args[0]) != "rjc" ||
-					render(inner[0].Args[1]) != `field.NewPath("spec", "schedule", "cron")` {
-					failf("ValidateJobConfig: the call of validateCronScheduleForJobConfig has an unrecognised shape: if %s { %s }", render(is.Cond), render(inner[0]))
-				}
-				recheck = true
-			}
-			return true
-		})
-	}
-	if recheck {
-		var fd *ast.FuncDecl
-		if f := parse(validationFile); f != nil {
-			for _, d := range f.Decls {
-				if x, ok := d.(*ast.FuncDecl); ok && x.Name.Name == "validateCronScheduleForJobConfig" {
-					fd = x
-				}
-			}
+			delegates = append(delegates, [2]string{strings.TrimPrefix(want[0], "v."), childName(cs[0].Args[2], "ValidateJobSpecUpdate")})
 		}
-		if fd == nil {
-			failf("validateCronScheduleForJobConfig is called but not declared")
-		} else {
-			if c := firstIfCond(fd, "validateCronScheduleForJobConfig"); c != nil {
-				recheckGuard = render(c)
-			}
-			cs := callsIn(fd, "cron.NewExpressionFromCronSchedule")
-			if len(cs) != 1 || len(cs[0].Args) != 3 || render(cs[0].Args[0]) != "schedule.Cron" ||
-				render(cs[0].Args[1]) != "cron.NewParserFromConfig(cfg)" {
-				failf("validateCronScheduleForJobConfig: cron.NewExpressionFromCronSchedule(schedule.Cron, cron.NewParserFromConfig(cfg), <id>) not found")
+		// metadata: the uid label
+		labelConst := ""
+		if cs := callsIn(funcDecl(validationFile, "Validator", "ValidateJobMetadataUpdate"), "apivalidation.ValidateImmutableField"); len(cs) == 1 && len(cs[0].Args) == 3 {
+			a, b2 := render(cs[0].Args[0]), render(cs[0].Args[1])
+			const pfxNew, pfxOld = "metadata.Labels[", "oldMetadata.Labels["
+			if strings.HasPrefix(a, pfxNew) && strings.HasPrefix(b2, pfxOld) && strings.TrimPrefix(a, pfxNew) == strings.TrimPrefix(b2, pfxOld) {
+				labelConst = strings.TrimSuffix(strings.TrimPrefix(a, pfxNew), "]")
 			} else {
-				id := exprName(cs[0].Args[2])
-				// resolve `<id>, err := <call>`
-				ast.Inspect(fd, func(n ast.Node) bool {
-					as, ok := n.(*ast.AssignStmt)
-					if ok && len(as.Lhs) >= 1 && len(as.Rhs) == 1 && exprName(as.Lhs[0]) == id {
-						recheckHash = render(as.Rhs[0])
-					}
+				failf("ValidateJobMetadataUpdate: ValidateImmutableField is not on (metadata.Labels[K], oldMetadata.Labels[K]): %s", render(cs[0]))
+			}
+		} else {
+			failf("ValidateJobMetadataUpdate: expected exactly one ValidateImmutableField call")
+		}
+		if labelConst != "jobconfig.LabelKeyJobConfigUID" {
+			failf("ValidateJobMetadataUpdate: immutable label is %q, expected jobconfig.LabelKeyJobConfigUID", labelConst)
+		}
+		// ValidateJobUpdate: callers and the startPolicy guard
+		jobUpd := funcDecl(validationFile, "Validator", "ValidateJobUpdate")
+		for _, want := range []string{"v.ValidateJobMetadataUpdate", "v.ValidateJobSpecUpdate"} {
+			if len(callsIn(jobUpd, want)) != 1 {
+				failf("ValidateJobUpdate: call to %s not found", want)
+			}
+		}
+		startGuard := ""
+		if jobUpd != nil {
+			ast.Inspect(jobUpd, func(n ast.Node) bool {
+				is, ok := n.(*ast.IfStmt)
+				if !ok {
 					return true
-				})
-				if recheckHash != "cache.MetaNamespaceKeyFunc(rjc)" {
-					failf("validateCronScheduleForJobConfig: hash id %q is %q, expected cache.MetaNamespaceKeyFunc(rjc)", id, recheckHash)
+				}
+				inner := callsIn(&ast.FuncDecl{Body: is.Body, Name: jobUpd.Name, Type: jobUpd.Type}, "validation.ValidateImmutableField")
+				if len(inner) == 1 && len(inner[0].Args) == 4 &&
+					render(inner[0].Args[0]) == "rj.Spec.StartPolicy" && render(inner[0].Args[1]) == "oldRj.Spec.StartPolicy" {
+					startGuard = render(is.Cond)
+				}
+				return true
+			})
+		}
+		switch startGuard {
+		case "!rj.Status.StartTime.IsZero()":
+			startGuardObj = "new"
+		case "!oldRj.Status.StartTime.IsZero()":
+			startGuardObj = "old"
+		case "":
+			failf("ValidateJobUpdate: guarded ValidateImmutableField(rj.Spec.StartPolicy, oldRj.Spec.StartPolicy, …) not found")
+		default:
+			failf("ValidateJobUpdate: startPolicy guard not recognised: %s", startGuard)
+		}
+	})
+
+	section("val-kill", func() {
+		if c := firstIfCond(funcDecl(validationFile, "Validator", "ValidateKillTimestampUpdate"), "ValidateKillTimestampUpdate"); c != nil {
+			killGuard = render(c)
+		}
+
+	})
+
+	section("val-cron", func() {
+		// ---- cron: validator's hash id, scheduler's guard, parser defaults
+		if cs := callsIn(funcDecl(validationFile, "Validator", "ValidateCronScheduleExpression"), "parser.Parse"); len(cs) == 1 && len(cs[0].Args) == 2 {
+			hashID = strLit(cs[0].Args[1], "ValidateCronScheduleExpression hash id")
+		} else {
+			failf("ValidateCronScheduleExpression: parser.Parse(cronSchedule, \"…\") not found")
+		}
+		// the scheduler-style re-parse inside ValidateJobConfig (absent before fix d9dad79: recorded, not an error)
+		if fd := funcDecl(validationFile, "Validator", "ValidateJobConfig"); fd != nil {
+			ast.Inspect(fd, func(n ast.Node) bool {
+				is, ok := n.(*ast.IfStmt)
+				if !ok {
+					return true
+				}
+				inner := callsIn(&ast.FuncDecl{Body: is.Body, Name: fd.Name, Type: fd.Type}, "v.validateCronScheduleForJobConfig")
+				if len(inner) == 1 {
+					if render(is.Cond) != "len(allErrs) == 0" || len(inner[0].Args) != 2 || render(inner[0].Args[0]) != "rjc" ||
+						render(inner[0].Args[1]) != `field.NewPath("spec", "schedule", "cron")` {
+						failf("ValidateJobConfig: the call of validateCronScheduleForJobConfig has an unrecognised shape: if %s { %s }", render(is.Cond), render(inner[0]))
+					}
+					recheck = true
+				}
+				return true
+			})
+		}
+		if recheck {
+			var fd *ast.FuncDecl
+			if f := parse(validationFile); f != nil {
+				for _, d := range f.Decls {
+					if x, ok := d.(*ast.FuncDecl); ok && x.Name.Name == "validateCronScheduleForJobConfig" {
+						fd = x
+					}
+				}
+			}
+			if fd == nil {
+				failf("validateCronScheduleForJobConfig is called but not declared")
+			} else {
+				if c := firstIfCond(fd, "validateCronScheduleForJobConfig"); c != nil {
+					recheckGuard = render(c)
+				}
+				cs := callsIn(fd, "cron.NewExpressionFromCronSchedule")
+				if len(cs) != 1 || len(cs[0].Args) != 3 || render(cs[0].Args[0]) != "schedule.Cron" ||
+					render(cs[0].Args[1]) != "cron.NewParserFromConfig(cfg)" {
+					failf("validateCronScheduleForJobConfig: cron.NewExpressionFromCronSchedule(schedule.Cron, cron.NewParserFromConfig(cfg), <id>) not found")
+				} else {
+					id := exprName(cs[0].Args[2])
+					// resolve `<id>, err := <call>`
+					ast.Inspect(fd, func(n ast.Node) bool {
+						as, ok := n.(*ast.AssignStmt)
+						if ok && len(as.Lhs) >= 1 && len(as.Rhs) == 1 && exprName(as.Lhs[0]) == id {
+							recheckHash = render(as.Rhs[0])
+						}
+						return true
+					})
+					if recheckHash != "cache.MetaNamespaceKeyFunc(rjc)" {
+						failf("validateCronScheduleForJobConfig: hash id %q is %q, expected cache.MetaNamespaceKeyFunc(rjc)", id, recheckHash)
+					}
 				}
 			}
 		}
-	}
-	schedGuard := ""
-	if c := firstIfCond(funcDecl(scheduleFile, "Schedule", "parseCronAndTimezone"), "parseCronAndTimezone"); c != nil {
-		schedGuard = render(c)
-	}
-	var derefs [][2]string
-	for _, c := range callsIn(funcDecl(cronParserFile, "", "NewParserFromConfig"), "pointer.BoolDeref") {
-		if len(c.Args) != 2 {
-			continue
+		if c := firstIfCond(funcDecl(scheduleFile, "Schedule", "parseCronAndTimezone"), "parseCronAndTimezone"); c != nil {
+			schedGuard = render(c)
 		}
-		sel, ok := c.Args[0].(*ast.SelectorExpr)
-		if !ok || exprName(sel.X) != "cfg" {
-			failf("NewParserFromConfig: BoolDeref argument is not cfg.F")
-			continue
+		for _, c := range callsIn(funcDecl(cronParserFile, "", "NewParserFromConfig"), "pointer.BoolDeref") {
+			if len(c.Args) != 2 {
+				continue
+			}
+			sel, ok := c.Args[0].(*ast.SelectorExpr)
+			if !ok || exprName(sel.X) != "cfg" {
+				failf("NewParserFromConfig: BoolDeref argument is not cfg.F")
+				continue
+			}
+			derefs = append(derefs, [2]string{sel.Sel.Name, exprName(c.Args[1])})
 		}
-		derefs = append(derefs, [2]string{sel.Sel.Name, exprName(c.Args[1])})
-	}
-	if len(derefs) != 3 {
-		failf("NewParserFromConfig: expected 3 pointer.BoolDeref calls, found %d", len(derefs))
-	}
+		if len(derefs) != 3 {
+			failf("NewParserFromConfig: expected 3 pointer.BoolDeref calls, found %d", len(derefs))
+		}
+	})
 
 	b.WriteString("\n-- ---- validate slice (C17)\n")
-	fmt.Fprintf(b, "/-- limit used by `ValidateJobConfig` on metadata.name / by `ValidateJobMetadata` -/\n")
-	fmt.Fprintf(b, "def valJobConfigNameMaxLen : Nat := %d\ndef valJobNameMaxLen : Nat := %d\n", jcNameLimit, jobNameLimit)
-	fmt.Fprintf(b, "/-- `ValidateMaxLength` rejects when `len(val) <op> maxLen` -/\ndef valMaxLengthRejectOp : String := %s\n", leanStr(maxLenOp))
-	fmt.Fprintf(b, "/-- `core/validation.Validate<K>` rejects when `value <op> bound` -/\ndef valBoundRejectOp : List (String × String) := %s\n", leanPairs(ops))
+	emit(b, "val-limits", func(b *strings.Builder) {
+		fmt.Fprintf(b, "/-- limit used by `ValidateJobConfig` on metadata.name / by `ValidateJobMetadata` -/\n")
+		fmt.Fprintf(b, "def valJobConfigNameMaxLen : Nat := %s\ndef valJobNameMaxLen : Nat := %s\n", natLit(jcNameLimit, "valJobConfigNameMaxLen"), natLit(jobNameLimit, "valJobNameMaxLen"))
+		fmt.Fprintf(b, "/-- `ValidateMaxLength` rejects when `len(val) <op> maxLen` -/\ndef valMaxLengthRejectOp : String := %s\n", leanStr(maxLenOp))
+		fmt.Fprintf(b, "/-- `core/validation.Validate<K>` rejects when `value <op> bound` -/\ndef valBoundRejectOp : List (String × String) := %s\n", leanPairs(ops))
+	})
 	intPairs := func(ps [][2]string) string {
 		parts := make([]string, len(ps))
 		for i, p := range ps {
@@ -362,16 +376,24 @@ func validationFacts(b *strings.Builder) {
 		}
 		return "[" + strings.Join(parts, ", ") + "]"
 	}
-	fmt.Fprintf(b, "/-- `ValidateMaxRetryAttempts`: bound checks in order -/\ndef valMaxAttemptsChecks : List (String × Int) := %s\n", intPairs(attempts))
-	fmt.Fprintf(b, "/-- `ValidateConcurrencySpec`: bound checks on maxConcurrency -/\ndef valMaxConcurrencyChecks : List (String × Int) := %s\n", intPairs(maxConc))
-	fmt.Fprintf(b, "/-- `ValidateJobSpecUpdate`: (Go field, path) of the ValidateImmutableField calls, in order -/\ndef valJobSpecImmutable : List (String × String) := %s\n", leanPairs(specImm))
-	fmt.Fprintf(b, "/-- `ValidateJobSpecUpdate`: delegating calls (function, path) -/\ndef valJobSpecUpdateDelegates : List (String × String) := %s\n", leanPairs(delegates))
-	fmt.Fprintf(b, "/-- `ValidateJobTemplateSpecImmutable`: (Go field, path) of the ValidateImmutableField calls, in order -/\ndef valJobTemplateImmutable : List (String × String) := %s\n", leanPairs(tmplImm))
-	fmt.Fprintf(b, "/-- `ValidateJobUpdate`: the startPolicy check is guarded by the start time of this object (\"new\" = rj, \"old\" = oldRj) -/\ndef valStartPolicyGuardObject : String := %s\n", leanStr(startGuardObj))
-	fmt.Fprintf(b, "/-- `ValidateKillTimestampUpdate`: the rejecting condition as written -/\ndef valKillTimestampGuard : String := %s\n", leanStr(killGuard))
-	fmt.Fprintf(b, "/-- hash id that `ValidateCronScheduleExpression` passes to `parser.Parse` -/\ndef valCronHashID : String := %s\n", leanStr(hashID))
-	fmt.Fprintf(b, "/-- `ValidateJobConfig` re-parses the schedule with the scheduler's hash id when nothing else was rejected (fix d9dad79) -/\ndef valJobConfigScheduleRecheck : Bool := %v\n", recheck)
-	fmt.Fprintf(b, "/-- `validateCronScheduleForJobConfig`: guard of the early return as written; the hash id it parses with -/\ndef valScheduleRecheckSkipGuard : String := %s\ndef valScheduleRecheckHashID : String := %s\n", leanStr(recheckGuard), leanStr(recheckHash))
-	fmt.Fprintf(b, "/-- `Schedule.parseCronAndTimezone`: guard of the early `return nil, nil, nil` as written -/\ndef schedSkipGuard : String := %s\n", leanStr(schedGuard))
-	fmt.Fprintf(b, "/-- `cron.NewParserFromConfig`: defaults of the pointer.BoolDeref calls (config field, default) -/\ndef cronParserBoolDefaults : List (String × String) := %s\n", leanPairs(derefs))
+	emit(b, "val-bounds", func(b *strings.Builder) {
+		fmt.Fprintf(b, "/-- `ValidateMaxRetryAttempts`: bound checks in order -/\ndef valMaxAttemptsChecks : List (String × Int) := %s\n", intPairs(attempts))
+		fmt.Fprintf(b, "/-- `ValidateConcurrencySpec`: bound checks on maxConcurrency -/\ndef valMaxConcurrencyChecks : List (String × Int) := %s\n", intPairs(maxConc))
+	})
+	emit(b, "val-immutable", func(b *strings.Builder) {
+		fmt.Fprintf(b, "/-- `ValidateJobSpecUpdate`: (Go field, path) of the ValidateImmutableField calls, in order -/\ndef valJobSpecImmutable : List (String × String) := %s\n", leanPairs(specImm))
+		fmt.Fprintf(b, "/-- `ValidateJobSpecUpdate`: delegating calls (function, path) -/\ndef valJobSpecUpdateDelegates : List (String × String) := %s\n", leanPairs(delegates))
+		fmt.Fprintf(b, "/-- `ValidateJobTemplateSpecImmutable`: (Go field, path) of the ValidateImmutableField calls, in order -/\ndef valJobTemplateImmutable : List (String × String) := %s\n", leanPairs(tmplImm))
+		fmt.Fprintf(b, "/-- `ValidateJobUpdate`: the startPolicy check is guarded by the start time of this object (\"new\" = rj, \"old\" = oldRj) -/\ndef valStartPolicyGuardObject : String := %s\n", leanStr(startGuardObj))
+	})
+	emit(b, "val-kill", func(b *strings.Builder) {
+		fmt.Fprintf(b, "/-- `ValidateKillTimestampUpdate`: the rejecting condition as written -/\ndef valKillTimestampGuard : String := %s\n", leanStr(killGuard))
+	})
+	emit(b, "val-cron", func(b *strings.Builder) {
+		fmt.Fprintf(b, "/-- hash id that `ValidateCronScheduleExpression` passes to `parser.Parse` -/\ndef valCronHashID : String := %s\n", leanStr(hashID))
+		fmt.Fprintf(b, "/-- `ValidateJobConfig` re-parses the schedule with the scheduler's hash id when nothing else was rejected (fix d9dad79) -/\ndef valJobConfigScheduleRecheck : Bool := %v\n", recheck)
+		fmt.Fprintf(b, "/-- `validateCronScheduleForJobConfig`: guard of the early return as written; the hash id it parses with -/\ndef valScheduleRecheckSkipGuard : String := %s\ndef valScheduleRecheckHashID : String := %s\n", leanStr(recheckGuard), leanStr(recheckHash))
+		fmt.Fprintf(b, "/-- `Schedule.parseCronAndTimezone`: guard of the early `return nil, nil, nil` as written -/\ndef schedSkipGuard : String := %s\n", leanStr(schedGuard))
+		fmt.Fprintf(b, "/-- `cron.NewParserFromConfig`: defaults of the pointer.BoolDeref calls (config field, default) -/\ndef cronParserBoolDefaults : List (String × String) := %s\n", leanPairs(derefs))
+	})
 }
